@@ -157,6 +157,7 @@ class Encoder:
     def __init__(self, ack: bool = True):
         self.ack = ack                # Ackermann reduction: applications become constants + congruence
         self.apps: dict = {}          # function name -> list of (arg terms, constant)
+        self.app_terms: dict = {}     # Ackermann constant name -> sympy application
         self.side: list = []          # axioms about sqrt / pow / transcendental instances
         self.dens: list = []          # z3 terms assumed non-zero
         self._den_keys: set = set()
@@ -340,7 +341,10 @@ class Encoder:
         if isinstance(e, sp.Function):       # spec / uninterpreted functions
             name = type(e).__name__
             args = [self._single(a) for a in e.args]
-            return (self._fn(name, len(args))(*args), None)
+            c = self._fn(name, len(args))(*args)
+            if self.ack:
+                self.app_terms[str(c)] = e          # constant name -> the application (for models and replays)
+            return (c, None)
         raise EncodeError(f"no SMT encoding for {type(e).__name__}: {e}")
 
     def intterm(self, e):
